@@ -3,6 +3,7 @@
    TableProofs / TableBuildProofs). *)
 From LCDB Require Import Base Varint Crc32c Block Trie Filter Snappy TableFormat.
 From LCDB Require Import BlockProofs BlockIterProofs BlockSeekProofs FilterProofs FilterBlockProofs SnappyProofs TableProofs TableBuildProofs.
+From LCDB Require Import BlockCursorProofs TableIndexProofs TableGetProofs TableIterProofs.
 Local Open Scope N_scope.
 
 (* (a) filters never reject a present key: for ANY hash function *)
@@ -184,3 +185,223 @@ Theorem C16_block_cursor_sim_internal :
   block_run tbl_ikey_compare true (block_build I es) ops = Ok (ref_run tbl_ikey_compare es ops None, SOk).
 Proof. exact block_cursor_sim_internal. Qed.
 Print Assumptions C16_block_cursor_sim_internal.
+
+(* ================================================================== *)
+(* (g) ldb_table_internal_get and the two-level iterator on built      *)
+(* tables (proofs: BlockCursorProofs / TableIndexProofs /              *)
+(* TableGetProofs / TableIterProofs).  Any block size, restart         *)
+(* interval, filter bits (0 = no filter) and checksum options; both    *)
+(* lcdb comparators; compression off; table files below 4 GiB.         *)
+(* ================================================================== *)
+
+(* the crux: in the index block of a built table the key stored for data block i is
+   >= every key of block i and < every key of all later blocks (index_rel), for any
+   comparator whose shortest_separator / short_successor satisfy their contracts ... *)
+Theorem C16_index_separators :
+  forall (cmp : bytes -> bytes -> comparison), cmp_order cmp ->
+  forall (sep : bytes -> bytes -> bytes) (succ : bytes -> bytes),
+  sep_contract cmp sep -> succ_contract cmp succ ->
+  forall (blocks : list (handle * list entry)),
+  Forall (fun fb => snd fb <> []) blocks ->
+  (forall pre k v mid k' v' post,
+     concat (map snd blocks) = pre ++ (k, v) :: mid ++ (k', v') :: post -> cmp k k' = Lt) ->
+  index_rel cmp (index_of sep succ blocks None) blocks.
+Proof.
+  intros cmp Hord sep succ Hsep Hsucc blocks Hne Hs.
+  apply (index_of_rel cmp Hord sep succ Hsep Hsucc blocks None Hne Hs). intros k H; discriminate.
+Qed.
+Print Assumptions C16_index_separators.
+
+(* ... which the two lcdb comparators do (TableFormat's own copies of the hooks) *)
+Theorem C16_table_comparators :
+  (cmp_order bytes_compare /\ sep_contract bytes_compare tbl_sep /\ succ_contract bytes_compare tbl_succ) /\
+  (cmp_order tbl_ikey_compare /\ sep_contract tbl_ikey_compare tbl_isep /\ succ_contract tbl_ikey_compare tbl_isucc).
+Proof.
+  exact (conj (conj bytes_order (conj bytes_sep_contract bytes_succ_contract))
+              (conj ikey_order (conj ikey_sep_contract ikey_succ_contract))).
+Qed.
+Print Assumptions C16_table_comparators.
+
+(* table_open of a built table succeeds; its data blocks are the entry list cut into
+   non-empty pieces at increasing offsets, its index block is index_of, its filter never
+   rejects a key of a block at the offset of that block *)
+Theorem C16_table_build_open :
+  forall sep succ has_filter fbuild fmatch compress block_size interval compression,
+  (compression = 1 -> forall raw, nlen (compress raw) < nlen raw - nlen raw / 8 ->
+     snappy_decode_size (compress raw) <> None /\ snappy_decode (compress raw) = Ok (Some raw) /\
+     nlen raw < 4294967296) ->
+  (forall keys key, In key keys -> fmatch (fbuild keys) key = Ok true) ->
+  forall paranoid es,
+  let file := table_build sep succ has_filter fbuild compress block_size interval compression es in
+  wf_bytes file = true -> nlen file < 4294967296 ->
+  exists t blocks, table_open has_filter paranoid file = Ok (inr t) /\
+                   built_table sep succ has_filter fmatch interval file es t blocks.
+Proof. exact table_build_open. Qed.
+Print Assumptions C16_table_build_open.
+
+(* a present key is found, with its value (whatever the filter says about other keys) *)
+Theorem C16_table_get_present_bytewise :
+  forall bits compress block_size interval compression paranoid verify es k v,
+  (compression = 1 -> forall raw, nlen (compress raw) < nlen raw - nlen raw / 8 ->
+     snappy_decode_size (compress raw) <> None /\ snappy_decode (compress raw) = Ok (Some raw) /\
+     nlen raw < 4294967296) ->
+  Forall (fun e => nlen (fst e) < 4294967296 /\ nlen (snd e) < 4294967296) es ->
+  nlen es + 1 < 4294967296 ->
+  (forall pre k v mid k' v' post, es = pre ++ (k, v) :: mid ++ (k', v') :: post -> bytes_compare k k' = Lt) ->
+  let file := table_build_i 0 bits compress block_size interval compression es in
+  wf_bytes file = true -> nlen file < 4294967296 ->
+  In (k, v) es ->
+  table_lookup (inst_cmp 0) (inst_internal 0) (inst_has_filter bits) (inst_fmatch 0) paranoid verify file k
+  = Ok (inr (Some (k, v), SOk)).
+Proof.
+  intros bits compress block_size interval compression paranoid verify es k v Hc Hes Hn Hs file Hwf Hlen Hin.
+  destruct (table_lookup_build_bytewise bits compress block_size interval compression paranoid verify es
+              Hc Hes Hn Hs Hwf Hlen k) as (r & Hget & _ & Hp & _).
+  fold file in Hget. rewrite Hget, (Hp v Hin). reflexivity.
+Qed.
+Print Assumptions C16_table_get_present_bytewise.
+
+Theorem C16_table_get_present_internal :
+  forall bits compress block_size interval compression paranoid verify es k v,
+  (compression = 1 -> forall raw, nlen (compress raw) < nlen raw - nlen raw / 8 ->
+     snappy_decode_size (compress raw) <> None /\ snappy_decode (compress raw) = Ok (Some raw) /\
+     nlen raw < 4294967296) ->
+  Forall (fun e => nlen (fst e) < 4294967296 /\ 8 <= nlen (fst e) /\ nlen (snd e) < 4294967296) es ->
+  nlen es + 1 < 4294967296 ->
+  (forall pre k v mid k' v' post, es = pre ++ (k, v) :: mid ++ (k', v') :: post -> tbl_ikey_compare k k' = Lt) ->
+  let file := table_build_i 1 bits compress block_size interval compression es in
+  wf_bytes file = true -> nlen file < 4294967296 ->
+  In (k, v) es ->
+  table_lookup (inst_cmp 1) (inst_internal 1) (inst_has_filter bits) (inst_fmatch 1) paranoid verify file k
+  = Ok (inr (Some (k, v), SOk)).
+Proof.
+  intros bits compress block_size interval compression paranoid verify es k v Hc Hes Hn Hs file Hwf Hlen Hin.
+  assert (Hk : 8 <= nlen k).
+  { rewrite Forall_forall in Hes. destruct (Hes (k, v) Hin) as (_ & A & _). exact A. }
+  destruct (table_lookup_build_internal bits compress block_size interval compression paranoid verify es
+              Hc Hes Hn Hs Hwf Hlen k Hk) as (r & Hget & _ & Hp & _).
+  fold file in Hget. rewrite Hget, (Hp v Hin). reflexivity.
+Qed.
+Print Assumptions C16_table_get_present_internal.
+
+(* any key: the call succeeds with status OK and hands over either nothing or THE
+   successor of the key in the entry list (the first entry whose key is not below the
+   target, see C16_seek_spec) -- never another entry, never an error; nothing at all
+   when every key of the table is below the target.  ("Nothing" although a successor
+   exists happens when the filter rejects the key, or when the key lies between the
+   last key of a data block and the shortened separator stored for that block.) *)
+Theorem C16_table_get_absent_bytewise :
+  forall bits compress block_size interval compression paranoid verify es,
+  (compression = 1 -> forall raw, nlen (compress raw) < nlen raw - nlen raw / 8 ->
+     snappy_decode_size (compress raw) <> None /\ snappy_decode (compress raw) = Ok (Some raw) /\
+     nlen raw < 4294967296) ->
+  Forall (fun e => nlen (fst e) < 4294967296 /\ nlen (snd e) < 4294967296) es ->
+  nlen es + 1 < 4294967296 ->
+  (forall pre k v mid k' v' post, es = pre ++ (k, v) :: mid ++ (k', v') :: post -> bytes_compare k k' = Lt) ->
+  let file := table_build_i 0 bits compress block_size interval compression es in
+  wf_bytes file = true -> nlen file < 4294967296 ->
+  forall k,
+  exists r, table_lookup (inst_cmp 0) (inst_internal 0) (inst_has_filter bits) (inst_fmatch 0)
+                         paranoid verify file k = Ok (inr (r, SOk)) /\
+    (r = None \/ r = zip_obs (ref_seek bytes_compare es k)) /\
+    (forall v, In (k, v) es -> r = Some (k, v)) /\
+    (Forall (fun e => bytes_compare (fst e) k = Lt) es -> r = None).
+Proof. exact table_lookup_build_bytewise. Qed.
+Print Assumptions C16_table_get_absent_bytewise.
+
+Theorem C16_table_get_absent_internal :
+  forall bits compress block_size interval compression paranoid verify es,
+  (compression = 1 -> forall raw, nlen (compress raw) < nlen raw - nlen raw / 8 ->
+     snappy_decode_size (compress raw) <> None /\ snappy_decode (compress raw) = Ok (Some raw) /\
+     nlen raw < 4294967296) ->
+  Forall (fun e => nlen (fst e) < 4294967296 /\ 8 <= nlen (fst e) /\ nlen (snd e) < 4294967296) es ->
+  nlen es + 1 < 4294967296 ->
+  (forall pre k v mid k' v' post, es = pre ++ (k, v) :: mid ++ (k', v') :: post -> tbl_ikey_compare k k' = Lt) ->
+  let file := table_build_i 1 bits compress block_size interval compression es in
+  wf_bytes file = true -> nlen file < 4294967296 ->
+  forall k, 8 <= nlen k ->
+  exists r, table_lookup (inst_cmp 1) (inst_internal 1) (inst_has_filter bits) (inst_fmatch 1)
+                         paranoid verify file k = Ok (inr (r, SOk)) /\
+    (r = None \/ r = zip_obs (ref_seek tbl_ikey_compare es k)) /\
+    (forall v, In (k, v) es -> r = Some (k, v)) /\
+    (Forall (fun e => tbl_ikey_compare (fst e) k = Lt) es -> r = None).
+Proof. exact table_lookup_build_internal. Qed.
+Print Assumptions C16_table_get_absent_internal.
+
+(* the way lcdb uses it: a lookup key (user key, snapshot sequence, SEEK tag) is never
+   itself in the table; if its successor in the table carries the same user key, that
+   successor is what the call hands over -- neither the filter (keyed by user keys) nor
+   the shortened index separators hide it *)
+Theorem C16_table_get_user_key_internal :
+  forall bits compress block_size interval compression paranoid verify es,
+  (compression = 1 -> forall raw, nlen (compress raw) < nlen raw - nlen raw / 8 ->
+     snappy_decode_size (compress raw) <> None /\ snappy_decode (compress raw) = Ok (Some raw) /\
+     nlen raw < 4294967296) ->
+  Forall (fun e => nlen (fst e) < 4294967296 /\ 8 <= nlen (fst e) /\ nlen (snd e) < 4294967296) es ->
+  nlen es + 1 < 4294967296 ->
+  (forall pre k v mid k' v' post, es = pre ++ (k, v) :: mid ++ (k', v') :: post -> tbl_ikey_compare k k' = Lt) ->
+  let file := table_build_i 1 bits compress block_size interval compression es in
+  wf_bytes file = true -> nlen file < 4294967296 ->
+  forall k p e q, 8 <= nlen k ->
+  ref_seek tbl_ikey_compare es k = Some (p, e, q) ->
+  tbl_user_key (fst e) = tbl_user_key k ->
+  table_lookup (inst_cmp 1) (inst_internal 1) (inst_has_filter bits) (inst_fmatch 1)
+               paranoid verify file k = Ok (inr (Some e, SOk)).
+Proof. exact table_lookup_user_internal. Qed.
+Print Assumptions C16_table_get_user_key_internal.
+
+(* the two-level iterator of a built table simulates a cursor over the entry list for
+   ARBITRARY scripts (Next / Prev issued when valid, skipped otherwise, as the driver
+   does): observations = those of the reference cursor over the whole list (Seek lands on
+   the first entry at or after the target, block boundaries are crossed in both
+   directions, nothing is skipped), final status OK *)
+Theorem C16_table_iterator_is_cursor_bytewise :
+  forall bits compress block_size interval compression paranoid verify es ops,
+  (compression = 1 -> forall raw, nlen (compress raw) < nlen raw - nlen raw / 8 ->
+     snappy_decode_size (compress raw) <> None /\ snappy_decode (compress raw) = Ok (Some raw) /\
+     nlen raw < 4294967296) ->
+  Forall (fun e => nlen (fst e) < 4294967296 /\ nlen (snd e) < 4294967296) es ->
+  nlen es + 1 < 4294967296 ->
+  (forall pre k v mid k' v' post, es = pre ++ (k, v) :: mid ++ (k', v') :: post -> bytes_compare k k' = Lt) ->
+  let file := table_build_i 0 bits compress block_size interval compression es in
+  wf_bytes file = true -> nlen file < 4294967296 ->
+  table_run_i 0 bits paranoid verify file ops = Ok (inr (ref_run bytes_compare es ops None, SOk)).
+Proof. exact table_run_build_bytewise. Qed.
+Print Assumptions C16_table_iterator_is_cursor_bytewise.
+
+Theorem C16_table_iterator_is_cursor_internal :
+  forall bits compress block_size interval compression paranoid verify es ops,
+  (compression = 1 -> forall raw, nlen (compress raw) < nlen raw - nlen raw / 8 ->
+     snappy_decode_size (compress raw) <> None /\ snappy_decode (compress raw) = Ok (Some raw) /\
+     nlen raw < 4294967296) ->
+  Forall (fun e => nlen (fst e) < 4294967296 /\ 8 <= nlen (fst e) /\ nlen (snd e) < 4294967296) es ->
+  nlen es + 1 < 4294967296 ->
+  (forall pre k v mid k' v' post, es = pre ++ (k, v) :: mid ++ (k', v') :: post -> tbl_ikey_compare k k' = Lt) ->
+  let file := table_build_i 1 bits compress block_size interval compression es in
+  wf_bytes file = true -> nlen file < 4294967296 ->
+  Forall (op_ok true) ops ->
+  table_run_i 1 bits paranoid verify file ops = Ok (inr (ref_run tbl_ikey_compare es ops None, SOk)).
+Proof. exact table_run_build_internal. Qed.
+Print Assumptions C16_table_iterator_is_cursor_internal.
+
+(* ... for any comparator / separator / filter policy satisfying the contracts *)
+Theorem C16_table_iterator_is_cursor :
+  forall cmp isint sep succ has_filter fbuild fmatch compress block_size interval compression,
+  (compression = 1 -> forall raw, nlen (compress raw) < nlen raw - nlen raw / 8 ->
+     snappy_decode_size (compress raw) <> None /\ snappy_decode (compress raw) = Ok (Some raw) /\
+     nlen raw < 4294967296) ->
+  (forall keys key, In key keys -> fmatch (fbuild keys) key = Ok true) ->
+  cmp_order cmp -> sep_contract cmp sep -> succ_contract cmp succ ->
+  forall dkey : bytes -> Prop,
+  (forall k, dkey k -> ikeyok isint k) ->
+  (forall a b, dkey a -> ikeyok isint (sep a b)) ->
+  (forall a, dkey a -> ikeyok isint (succ a)) ->
+  forall paranoid verify es ops,
+  Forall (fun e => wf_entry e /\ dkey (fst e)) es -> nlen es + 1 < 4294967296 ->
+  (forall pre k v mid k' v' post, es = pre ++ (k, v) :: mid ++ (k', v') :: post -> cmp k k' = Lt) ->
+  let file := table_build sep succ has_filter fbuild compress block_size interval compression es in
+  wf_bytes file = true -> nlen file < 4294967296 ->
+  Forall (op_ok isint) ops ->
+  table_run cmp isint has_filter paranoid verify file ops = Ok (inr (ref_run cmp es ops None, SOk)).
+Proof. exact table_run_build. Qed.
+Print Assumptions C16_table_iterator_is_cursor.
